@@ -23,6 +23,10 @@ class NeedChoice(Exception):
     pass
 
 
+class BitOverlap(Unmodelled):
+    """two different field bits are OR-ed into one bit of a packed word"""
+
+
 class PanicPath(Exception):
     """the interpreted path ends in a panic (assertion); the path is reported to the caller, not followed"""
 
@@ -92,6 +96,17 @@ def mk_bool(b):
     return ('bool', bool(b))
 
 
+INT_WIDTH = {'u8': 8, 'u16': 16, 'u32': 32, 'u64': 64, 'usize': 64, 'i8': 8, 'i16': 16, 'i32': 32, 'i64': 64, 'isize': 64, 'u128': 64, 'i128': 64}
+
+
+def bv_const(n):
+    return ('bv', tuple((n >> i) & 1 for i in range(64)))
+
+
+def bv_field(name, width):
+    return ('bv', tuple((name, i) for i in range(width)) + (0,) * (64 - width))
+
+
 VARIANTS = {
     'core::option::Option': ['None', 'Some'],
     'core::result::Result': ['Ok', 'Err'],
@@ -133,6 +148,7 @@ class Interp:
         self.oracle_log = []
         self.opaque_call = opaque_call     # fn(interp, name, args, term) -> value or None (not handled)
         self.poll_hook = None              # fn(interp, pin, future_value) -> output value or None
+        self.bv_arith = None               # fn(interp, op, a, b) -> value or None (arithmetic on bit vectors)
         self.trace = []
 
     # ---- nondeterminism --------------------------------------------------------------------------------------------
@@ -182,6 +198,13 @@ class Interp:
                 if v is None or v[0] != 'arr' or iv is None or iv[0] != 'int' or iv[1] is None or not (0 <= iv[1] < len(v[1])):
                     raise Unmodelled('indexing %r with %r' % (v[0] if v else None, iv))
                 c = v[1][iv[1]]
+            elif isinstance(e, dict) and 'ci' in e:
+                if v is None or v[0] != 'arr':
+                    raise Unmodelled('constant index into %r' % (v[0] if v else None,))
+                i = (len(v[1]) - e['ci']) if e.get('end') else e['ci']
+                if not (0 <= i < len(v[1])):
+                    raise Unmodelled('constant index out of range')
+                c = v[1][i]
             else:
                 raise Unmodelled('projection %r' % (e,))
         return c
@@ -206,7 +229,17 @@ class Interp:
             if 'str' in c:
                 return ('ref', Cell(('opaque', 'str')))
             if c.get('uneval'):
-                return ('const', strip_generics(c['uneval']), ty)
+                nm = strip_generics(c['uneval'])
+                if c.get('promoted') is not None:
+                    # a promoted constant of this body: what it refers to (e.g. a named constant of the crate)
+                    pb = self.facts.bodies.get('%s::{promoted#%d}' % (c['uneval'], c['promoted']))
+                    if pb is not None:
+                        for _b, _j, s_ in pb.assigns():
+                            o = s_['rv'].get('op') if s_['rv']['k'] == 'use' else None
+                            if o and o.get('k') == 'const' and o['c'].get('uneval'):
+                                nm = strip_generics(o['c']['uneval'])
+                v = ('const', nm, ty)
+                return ('ref', Cell(v)) if ty.startswith('&') else v
             return ('opaque', 'const:' + ty)
         cell = self.place_cell(frame, op['pl'])
         v = cell.v
@@ -232,7 +265,13 @@ class Interp:
             v = self.place_cell(frame, rv['pl']).v
             return v
         if k == 'cast':
-            return self.operand(frame, rv['op'])
+            v = self.operand(frame, rv['op'])
+            if v[0] == 'bv':
+                w = INT_WIDTH.get(rv.get('ty'))
+                if w is None:
+                    raise Unmodelled('cast of a bit vector to %s' % rv.get('ty'))
+                return ('bv', tuple(v[1][:w]) + (0,) * (64 - w))
+            return v
         if k == 'discr':
             v = self.place_cell(frame, rv['pl']).v
             if v is None or v[0] != 'adt':
@@ -267,6 +306,8 @@ class Interp:
         raise Unmodelled('rvalue %s' % k)
 
     def binop(self, op, a, b):
+        if a[0] == 'bv' or b[0] == 'bv':
+            return self.bv_binop(op, a, b)
         if a[0] == 'bool' and b[0] == 'bool':
             f = {'Eq': lambda x, y: x == y, 'Ne': lambda x, y: x != y, 'BitAnd': lambda x, y: x and y,
                  'BitOr': lambda x, y: x or y, 'BitXor': lambda x, y: x != y}.get(op)
@@ -284,11 +325,71 @@ class Interp:
                 return ('int', {'Add': x + y, 'Sub': x - y, 'Mul': x * y, 'AddWithOverflow': x + y, 'SubWithOverflow': x - y}[op])
             except KeyError:
                 return ('int', None)
-        if a[0] == 'ts' and b[0] == 'ts' and op in ('Lt', 'Le', 'Gt', 'Ge', 'Eq', 'Ne'):
+        if a[0] in ('ts', 'dur') and b[0] == a[0] and op in ('Lt', 'Le', 'Gt', 'Ge', 'Eq', 'Ne'):
             return mk_bool(self.ts_rel(op, a, b))
-        if a[0] == 'key' and b[0] == 'key' and op in ('Eq', 'Ne'):
+        if a[0] == 'sym' or b[0] == 'sym':
+            if op in ('Lt', 'Le', 'Gt', 'Ge', 'Eq', 'Ne'):
+                return ('bool', None)
+            return ('sym', (op, a, b))
+        if a[0] in ('key', 'node') and b[0] == a[0] and op in ('Eq', 'Ne'):
             return mk_bool((a[1] == b[1]) == (op == 'Eq'))
         raise Unmodelled('binary %s on %s, %s' % (op, a[0], b[0]))
+
+    def bv_binop(self, op, a, b):
+        if op in ('Lt', 'Le', 'Gt', 'Ge', 'Eq', 'Ne'):
+            return ('bool', None)
+        if op in ('Shl', 'ShlUnchecked', 'Shr', 'ShrUnchecked'):
+            if a[0] != 'bv' or b[0] != 'int' or b[1] is None:
+                raise Unmodelled('shift by a non-constant')
+            n = b[1]
+            bits = a[1]
+            if op.startswith('Shl'):
+                return ('bv', ((0,) * n + tuple(bits))[:64])
+            return ('bv', tuple(bits[n:]) + (0,) * min(n, 64))
+        if a[0] == 'int' and a[1] is not None:
+            a = bv_const(a[1])
+        if b[0] == 'int' and b[1] is not None:
+            b = bv_const(b[1])
+        if op in ('Div', 'Mul', 'Rem', 'Add', 'Sub', 'MulWithOverflow', 'AddWithOverflow') and self.bv_arith is not None:
+            r = self.bv_arith(self, op, a, b)
+            if r is not None:
+                return r
+        if a[0] != 'bv' or b[0] != 'bv':
+            raise Unmodelled('binary %s on %s, %s' % (op, a[0], b[0]))
+        out = []
+        for i, (x, y) in enumerate(zip(a[1], b[1])):
+            if op == 'BitAnd':
+                if x == 0 or y == 0:
+                    out.append(0)
+                elif x == 1:
+                    out.append(y)
+                elif y == 1:
+                    out.append(x)
+                elif x == y:
+                    out.append(x)
+                else:
+                    raise Unmodelled('bit %d is the AND of two different symbolic bits' % i)
+            elif op == 'BitOr':
+                if x == 0:
+                    out.append(y)
+                elif y == 0:
+                    out.append(x)
+                elif x == 1 or y == 1:
+                    out.append(1)
+                elif x == y:
+                    out.append(x)
+                else:
+                    raise BitOverlap('bit %d of the word is the OR of %s bit %d and %s bit %d: two fields overlap' % (i, x[0], x[1], y[0], y[1]))
+            elif op == 'BitXor':
+                if x == 0:
+                    out.append(y)
+                elif y == 0:
+                    out.append(x)
+                else:
+                    raise Unmodelled('xor of symbolic bits')
+            else:
+                raise Unmodelled('binary %s on bit vectors' % op)
+        return ('bv', tuple(out))
 
     def ts_rel(self, op, a, b):
         r = self.order.cmp(a[1], b[1])
@@ -310,6 +411,14 @@ class Interp:
             blk = body.blocks[b]
             for s in blk['s']:
                 if s['k'] == 'assign':
+                    if s['rv']['k'] == 'repeat' and not s['lhs']['p']:
+                        import re as _re
+                        m = _re.search(r';\s*(\d+)\]\s*$', body.local_ty(s['lhs']['l']))
+                        if not m:
+                            raise Unmodelled('array repeat of unknown length')
+                        e = self.operand(frame, s['rv']['op'])
+                        frame[s['lhs']['l']].v = ('arr', [Cell(clone_value(e)) for _ in range(int(m.group(1)))])
+                        continue
                     v = self.rvalue(frame, s['rv'])
                     self.place_cell(frame, s['lhs']).v = v
                 elif s['k'] == 'setdiscr':
@@ -439,14 +548,14 @@ class Interp:
             return self.compare_values(seg, a, b)
         if name in ('core::cmp::Ord::cmp', 'core::cmp::PartialOrd::partial_cmp'):
             a, b = self.deref_all(A[0]), self.deref_all(A[1])
-            if a[0] != 'ts' or b[0] != 'ts':
+            if a[0] not in ('ts', 'dur') or b[0] != a[0]:
                 raise Unmodelled('cmp on %s' % a[0])
             r = self.order.cmp(a[1], b[1])
             o = ('adt', 'core::cmp::Ordering', {'<': 0, '=': 1, '>': 2}[r], [])
             return o if name.endswith('::cmp') else mk_option(o)
         if name in ('core::cmp::max', 'core::cmp::Ord::max', 'core::cmp::min', 'core::cmp::Ord::min'):
             a, b = A[0], A[1]
-            if a[0] != 'ts' or b[0] != 'ts':
+            if a[0] not in ('ts', 'dur') or b[0] != a[0]:
                 raise Unmodelled('max/min on %s' % a[0])
             r = self.order.cmp(a[1], b[1])
             if seg == 'max':
@@ -464,6 +573,19 @@ class Interp:
             if inner is not None and inner[0] == 'ref':
                 return inner
             return v
+        if name in ('core::convert::TryInto::try_into', 'core::convert::TryFrom::try_from') and A and A[0][0] == 'bv':
+            w = None
+            for g in (t.get('gargs') or []) if t else []:
+                if g in INT_WIDTH:
+                    w = INT_WIDTH[g] if (w is None or name.endswith('try_into')) else w
+            gl = [g for g in ((t.get('gargs') or []) if t else []) if g in INT_WIDTH]
+            if len(gl) == 2:
+                w = INT_WIDTH[gl[1]] if name.endswith('try_into') else INT_WIDTH[gl[0]]
+            if w is None:
+                raise Unmodelled('try_into: target width unknown')
+            if any(x != 0 for x in A[0][1][w:]):
+                raise Unmodelled('try_into may fail: bits above the target width are not known to be zero')
+            return ('adt', 'core::result::Result', 0, [Cell(A[0])])
         if name in ('core::convert::From::from', 'core::convert::Into::into', 'core::mem::drop', 'core::hint::black_box',
                     'core::convert::identity'):
             return A[0] if name != 'core::mem::drop' else UNIT
@@ -566,7 +688,7 @@ class Interp:
         raise Unmodelled('call to %s is not modelled' % name)
 
     def compare_values(self, seg, a, b):
-        if a[0] == 'ts' and b[0] == 'ts':
+        if a[0] in ('ts', 'dur') and b[0] == a[0]:
             return mk_bool(self.ts_rel(seg, a, b))
         if a[0] == 'key' and b[0] == 'key' and seg in ('eq', 'ne'):
             return mk_bool((a[1] == b[1]) == (seg == 'eq'))
@@ -648,8 +770,16 @@ class Interp:
             return o if some else self.call_closure(A[1], [], depth)
         if seg == 'and':
             return A[1] if some else o
-        if seg == 'ok_or' or seg == 'ok_or_else' or seg == 'ok':
-            raise Unmodelled(name)
+        if seg == 'ok_or':
+            return ('adt', 'core::result::Result', 0, [Cell(inner)]) if some else ('adt', 'core::result::Result', 1, [Cell(A[1])])
+        if seg == 'ok_or_else':
+            return ('adt', 'core::result::Result', 0, [Cell(inner)]) if some else ('adt', 'core::result::Result', 1, [Cell(self.call_closure(A[1], [], depth))])
+        if seg == 'ok' and not isopt:
+            return mk_option(inner) if some else mk_option(None)
+        if seg == 'err' and not isopt:
+            return mk_option(None) if some else mk_option(o[3][0].v)
+        if seg == 'map_err' and not isopt:
+            return o if some else ('adt', o[1], 1, [Cell(self.call_closure(A[1], [o[3][0].v], depth))])
         if seg == 'zip':
             o2 = A[1]
             if some and o2[2] == 1:
